@@ -186,8 +186,12 @@ def _scalar_member_sites(pkg):
     return out
 
 
+def _names_alias(pkg, t):
+    return isinstance(t, N) and t.ns is None and isinstance(pkg.find(t.name), Al)
+
+
 def e_make_optional(pkg, r):
-    c = _pick(r, [(di, mi, t) for di, mi, t in _scalar_member_sites(pkg) if isinstance(t, (P, N)) and not (isinstance(t, N) and t.args)])
+    c = _pick(r, [(di, mi, t) for di, mi, t in _scalar_member_sites(pkg) if isinstance(t, (P, N)) and not (isinstance(t, N) and t.args) and not _names_alias(pkg, t)])
     if not c:
         return None
     di, mi, t = c
@@ -450,6 +454,7 @@ def e_scalar_to_vector(pkg, r):
 
 def e_change_type_arg(pkg, r):
     cands = [(di, mi, p, s) for di, mi, p, s in sites(pkg) if in_generic_arg(p) and p[-1][0] == "arg" and isinstance(s, P)
+             and not any(q[0] == "case" for q in p)      # inside a union case it is also "adding / removing a union type" (partially compatible)
              and not isinstance(pkg.defs[di], Al) and pkg.defs[di].name in reachable_defs(pkg)]
     c = _pick(r, cands)
     if not c:
